@@ -107,12 +107,28 @@ TrRegroup ==
   /\ Note(Cl(Len(Ev.after) = Len(Ev.before)
              /\ \A i \in 1..Len(Ev.after) : Ev.after[i] \in 0..(Ev.ng - 1), "EveryAssemblyInOneGroup")
           \cup Cl(\A x \in 0..(Ev.ng - 1) : GroupCount(Ev.after, x) >= 1, "ExactlyRequestedNonEmptyGroups"))
+\* ---- applying the distributed flows to the core ------------------------------
+\* (Orificing._setup_input_orifice on a core in which only some types are
+\* grouped): positions are 0-based ids; found[p + 1] is the flow written for
+\* position p (-1: none), m[k] the flow distributed to the k-th grouped assembly
+TrApply ==
+  /\ Live("Apply") /\ UNCHANGED st
+  /\ LET n == Len(Ev.found)  K == Len(Ev.m) IN
+     Note(Cl(Ev.ids = Ev.gpos, "GroupedAssembliesAreThoseRequested")
+          \cup Cl(Len(Ev.gpos) = K /\ \A k \in 1..K : Ev.found[Ev.gpos[k] + 1] = Ev.m[k],
+                  "AppliedFlowIsTheFlowDistributedToThatAssembly")
+          \cup Cl(Len(Ev.gpos) = K /\ \A j, k \in 1..K : Ev.grp[j] = Ev.grp[k]
+                      => Ev.found[Ev.gpos[j] + 1] = Ev.found[Ev.gpos[k] + 1],
+                  "GroupMembersGetTheSameFlow")
+          \cup Cl(\A p \in 1..n : (\A k \in 1..K : Ev.gpos[k] + 1 # p)
+                      => Close(Ev.found[p], Ev.ngflow[p], Ev.tol),
+                  "UngroupedAssemblyKeepsItsOwnFlow"))
 TrCrash == Live("Crash") /\ UNCHANGED st /\ Note({"NoUnhandledException"})
 Report == /\ ~done /\ l > Len(T.ev)
           /\ PrintT(<<"VERDICT", tid, IF verdict = {} THEN "accept" ELSE "reject",
                       IF firstbad # 0 THEN firstbad ELSE l - 1, verdict>>)
           /\ done' = TRUE /\ UNCHANGED <<tid, l, verdict, firstbad, st>>
-Next == TrGStart \/ TrPass \/ TrGEnd \/ TrDStart \/ TrDIter \/ TrDEnd \/ TrRegroup
+Next == TrGStart \/ TrPass \/ TrGEnd \/ TrDStart \/ TrDIter \/ TrDEnd \/ TrRegroup \/ TrApply
         \/ TrCrash \/ Report
 Spec == Init /\ [][Next]_vars
 =============================================================================
